@@ -1,6 +1,8 @@
 package main
 
 import (
+	"go/parser"
+	"go/ast"
 	"encoding/json"
 	"fmt"
 	"go/token"
@@ -77,12 +79,23 @@ func genType(r *RNG, depth int) *gty {
 			t.Fields = append(t.Fields, gfield{name, ft})
 		}
 		return t
-	case c < 97:
+	case c < 96:
 		return &gty{Kind: "word"}
-	default:
+	case c < 98:
 		return &gty{Kind: "iface"}
+	default:
+		// a defined type: its layout and its parts are those of the underlying type
+		u := genType(r, depth-1)
+		if r.Chance(50) {
+			u = &gty{Kind: "basic", Basic: Pick(r, []string{"complex128", "complex64", "string", "uint16", "int64"})}
+		}
+		return &gty{Kind: "named", Elem: u}
 	}
 }
+
+// named types get a name when the signature's source is written
+var namedSrc map[*gty]string
+var namedDecls []string
 
 func (t *gty) Src() string {
 	switch t.Kind {
@@ -104,8 +117,37 @@ func (t *gty) Src() string {
 		return "func()"
 	case "iface":
 		return "interface{}"
+	case "named":
+		if n, ok := namedSrc[t]; ok {
+			return n
+		}
+		inner := t.Elem.Src()
+		n := fmt.Sprintf("T%d", len(namedDecls))
+		namedSrc[t] = n
+		namedDecls = append(namedDecls, "type "+n+" "+inner)
+		return n
 	}
 	return "int"
+}
+// SrcPlain renders the type with every defined type replaced by its underlying type (same layout)
+func (t *gty) SrcPlain() string {
+	switch t.Kind {
+	case "ptr":
+		return "*" + t.Elem.SrcPlain()
+	case "slice":
+		return "[]" + t.Elem.SrcPlain()
+	case "arr":
+		return fmt.Sprintf("[%d]%s", t.N, t.Elem.SrcPlain())
+	case "struct":
+		var fs []string
+		for _, f := range t.Fields {
+			fs = append(fs, f.Name+" "+f.T.SrcPlain())
+		}
+		return "struct{" + strings.Join(fs, "; ") + "}"
+	case "named":
+		return t.Elem.SrcPlain()
+	}
+	return t.Src()
 }
 func (t *gty) Coq() string {
 	switch t.Kind {
@@ -131,6 +173,8 @@ func (t *gty) Coq() string {
 		return "TWord"
 	case "iface":
 		return "TIface"
+	case "named":
+		return "(TNamed " + t.Elem.Coq() + ")"
 	}
 	return "TWord"
 }
@@ -160,6 +204,9 @@ func genPath(r *RNG, t *gty) []pstep {
 				p = append(p, pstep{"(SDeref 256)", "Deref(RAX)", func(c gotypes.Component) gotypes.Component { return c.Dereference(reg.RAX) }})
 			}
 			return p
+		}
+		for cur.Kind == "named" { // steps look through defined types
+			cur = cur.Elem
 		}
 		switch cur.Kind {
 		case "struct":
@@ -286,6 +333,18 @@ func c07(c *Ctx) {
 			}
 			rs = append(rs, pv{name, genType(rng, 2)})
 		}
+		// directed shapes first: only zero-size results, defined complex/string types and their parts
+		bt := func(n string) *gty { return &gty{Kind: "basic", Basic: n} }
+		corpus := [][2][]pv{
+			{{{"flag", bt("uint8")}}, {{"done", &gty{Kind: "struct"}}}},
+			{{{"n", bt("uint32")}}, {{"z", &gty{Kind: "arr", N: 0, Elem: bt("uint64")}}}},
+			{{{"b", bt("bool")}, {"h", bt("uint16")}}, {{"a", &gty{Kind: "struct"}}, {"e", &gty{Kind: "arr", N: 0, Elem: bt("int")}}}},
+			{{{"p", &gty{Kind: "named", Elem: bt("complex128")}}, {"q", &gty{Kind: "named", Elem: bt("complex64")}}}, {{"r", &gty{Kind: "named", Elem: bt("string")}}}},
+			{{{"b", bt("uint8")}, {"s", &gty{Kind: "named", Elem: &gty{Kind: "struct", Fields: []gfield{{"c", &gty{Kind: "named", Elem: bt("complex128")}}, {"t", &gty{Kind: "struct"}}}}}}}, {{"", &gty{Kind: "struct"}}}},
+		}
+		if j < len(corpus) {
+			ps, rs = corpus[j][0], corpus[j][1]
+		}
 		// Go requires all-or-none named within one list
 		norm := func(vs []pv, pre string) {
 			anyNamed := false
@@ -306,8 +365,10 @@ func c07(c *Ctx) {
 				}
 			}
 		}
-		norm(ps, "q")
-		norm(rs, "s")
+		if j >= len(corpus) {
+			norm(ps, "q")
+			norm(rs, "s")
+		}
 		srcList := func(vs []pv) string {
 			var xs []string
 			for _, v := range vs {
@@ -315,8 +376,25 @@ func c07(c *Ctx) {
 			}
 			return strings.Join(xs, ", ")
 		}
+		namedSrc, namedDecls = map[*gty]string{}, nil
 		expr := "func(" + srcList(ps) + ") (" + srcList(rs) + ")"
-		sig, err := gotypes.ParseSignature(expr)
+		var sig *gotypes.Signature
+		var err error
+		if len(namedDecls) == 0 {
+			sig, err = gotypes.ParseSignature(expr)
+		} else {
+			fset := token.NewFileSet()
+			pf, perr := parser.ParseFile(fset, "p.go", "package p\n"+strings.Join(namedDecls, "\n")+"\n", 0)
+			if perr != nil {
+				die(perr)
+			}
+			pkg, cerr := (&types.Config{}).Check("p", fset, []*ast.File{pf}, nil)
+			if cerr != nil {
+				die(cerr)
+			}
+			sig, err = gotypes.ParseSignatureInPackage(pkg, expr)
+			expr += "  where " + strings.Join(namedDecls, "; ")
+		}
 		if err != nil {
 			die(fmt.Errorf("%s: %v", expr, err))
 		}
@@ -373,7 +451,7 @@ func c07(c *Ctx) {
 		o.AddCase(Case{Key: "layout:signature", Desc: expr + " :: " + strings.Join(pdesc, " "), Input: map[string]any{"signature": expr}, Nontrivial: len(ps)+len(rs) >= 2})
 		for _, v := range append(ps, rs...) {
 			if v.t.Kind == "struct" && len(mirror) < 80 {
-				mirror = append(mirror, v.t.Src())
+				mirror = append(mirror, v.t.SrcPlain())
 				mirrorCoq = append(mirrorCoq, v.t.Coq())
 			}
 		}
